@@ -4,7 +4,7 @@ use crate::common::*;
 use crate::ehist;
 use crate::tok::*;
 use biscuit_auth::format::schema;
-use biscuit_auth::{Biscuit, PublicKey, UnverifiedBiscuit};
+use biscuit_auth::{Biscuit, KeyPair, PublicKey, UnverifiedBiscuit};
 use prost::Message;
 use rayon::prelude::*;
 use serde_json::json;
@@ -583,6 +583,57 @@ pub fn structured_mutants(t: &schema::Biscuit, pools: &Pools) -> Vec<Mutant> {
             let mut m = t.clone();
             m.proof = p.clone();
             push(format!("proof/splice/{st}"), m);
+        }
+    }
+    // forged suffix: an attacker who does not hold the secret re-signs the chain from block i on with
+    // own keys (block i signed by an unrelated key, later blocks chained properly to the attacker's keys,
+    // proof made with the attacker's last key); the external signature of block i stays valid (it signs the
+    // unchanged previous signature), so the only wrong thing is the signature of block i
+    for i in 0..n {
+        for attacker_alg in [Alg::Ed, Alg::P256] {
+            for new_payload in [false, true] {
+                let mut m = t.clone();
+                let mut prev_sig: Vec<u8> = if i == 0 { vec![] } else { block_mut(t, i - 1).signature.clone() };
+                let mut signer = key(attacker_alg, 7, 100);
+                for j in i..n {
+                    let mut b = block_mut(&m, j);
+                    let next = key(attacker_alg, 7, 101 + j as u8);
+                    if new_payload && j == i && b.external_signature.is_none() {
+                        // a different (validly encoded) payload of the same token, if there is one
+                        if let Some(other) = (0..n).map(|k| block_mut(t, k).block).find(|x| *x != b.block) {
+                            b.block = other;
+                        }
+                    }
+                    b.next_key = proto_key(&next.public());
+                    // later third-party blocks would need the external signer again: keep them first-party-signed only
+                    // when their external signature is still valid (j == i); otherwise drop the external part
+                    if j > i {
+                        b.external_signature = None;
+                    }
+                    let version = b.version.unwrap_or(0).max(if attacker_alg == Alg::P256 || b.external_signature.is_some() { 1 } else { 0 });
+                    b.version = if version > 0 { Some(version) } else { None };
+                    let msg = match payload_block(version, j == 0, &b.block, &b.next_key, b.external_signature.as_ref().map(|e| &e.signature[..]), &prev_sig) {
+                        Ok(m) => m,
+                        Err(_) => break,
+                    };
+                    b.signature = raw_sign(&signer, &msg);
+                    prev_sig = b.signature.clone();
+                    signer = KeyPair::from(&next.private());
+                    m = with_block(&m, j, b);
+                }
+                let last = block_mut(&m, n - 1);
+                m.proof.content = Some(match &t.proof.content {
+                    Some(schema::proof::Content::FinalSignature(_)) => {
+                        let mut x = last.block.clone();
+                        x.extend_from_slice(&last.next_key.algorithm.to_le_bytes());
+                        x.extend_from_slice(&last.next_key.key);
+                        x.extend_from_slice(&last.signature);
+                        schema::proof::Content::FinalSignature(raw_sign(&signer, &x))
+                    }
+                    _ => schema::proof::Content::NextSecret(signer.private().to_bytes().to_vec()),
+                });
+                push(format!("forged-suffix/from-{}/{}{}", role(i, n), if matches!(t.proof.content, Some(schema::proof::Content::FinalSignature(_))) { "sealed" } else { "unsealed" }, if new_payload { "/other-payload" } else { "" }), m);
+            }
         }
     }
     // unauthenticated hint
